@@ -1,7 +1,7 @@
 """C18 - CRC-16/XMODEM and CRC-32C equal their bitwise definitions (R6)."""
 from lib import crcref, mon
 
-SHARDS = 8
+SHARDS = 16
 
 
 def run(R):
